@@ -121,6 +121,12 @@ def verify(c_file, workdir, entry, enforce, replace=(), loop_contracts=False, no
         r.cmds.append(' '.join(cmd))
         rc, out, dt = run(cmd, timeout)
         r.time += dt
+        if rc != 'timeout' and 'too many addressed objects' in out and not object_bits:
+            # cbmc's default of 8 object bits (256 objects) is a tool limit, not a verdict: widen and repeat
+            cmd = cmd[:2] + ['--object-bits', '12'] + cmd[2:]
+            r.cmds[-1] = ' '.join(cmd)
+            rc, out, dt = run(cmd, timeout)
+            r.time += dt
         if rc == 'timeout':
             r.log += '\n[%s] TIMEOUT after %ds\n' % (s, timeout)
             continue
